@@ -213,11 +213,49 @@ def _wrap(owner, name, kind, label):
         pass
 
 
+def _from_package(depth=2):
+    """is the caller of the wrapped function (depth frames up) code of the qucumber package?"""
+    try:
+        mod = sys._getframe(depth).f_globals.get("__name__", "")
+    except Exception:
+        return False
+    return mod == "qucumber" or mod.startswith("qucumber.")
+
+
+def _wrap_proc_write(owner, name, family):
+    """warnings filters and the environment are also written by torch / the interpreter on their own (lazy imports); a change of
+    these two is blamed on the library only if qucumber code itself called the writer during the operation."""
+    try:
+        orig = getattr(owner, name)
+    except AttributeError:
+        return
+    if getattr(orig, "_c14_wrapped", False) or not callable(orig):
+        return
+
+    def w(*a, **k):
+        if _from_package():
+            _STATE.setdefault("proc_writes", set()).add(family)
+        return orig(*a, **k)
+    w._c14_wrapped = True
+    w.__name__ = getattr(orig, "__name__", name)
+    w.__doc__ = getattr(orig, "__doc__", None)
+    try:
+        setattr(owner, name, w)
+    except Exception:
+        pass
+
+
 def _install_wrappers():
     if _STATE["wrapped"]:
         return
     _STATE["wrapped"] = True
-    import torch, numpy, random, time as _time
+    import torch, numpy, random, time as _time, warnings
+    for n in ("simplefilter", "filterwarnings", "resetwarnings"):
+        _wrap_proc_write(warnings, n, "warnings.filters")
+    for n in ("putenv", "unsetenv"):
+        _wrap_proc_write(os, n, "os.environ")
+    for n in ("__setitem__", "__delitem__", "pop", "popitem", "clear", "update", "setdefault"):
+        _wrap_proc_write(type(os.environ), n, "os.environ")
     for n in TORCH_FUNCS:
         _wrap(torch, n, "RngTorch", "torch." + n)
     for n in TORCH_RESEED_FUNCS:
@@ -318,12 +356,224 @@ def param_bytes(state):
     return hashlib.sha1(v.cpu().numpy().tobytes()).hexdigest()
 
 
+# =============================================================================== process-wide settings
+# Hidden state of the PROCESS that qucumber.set_random_seed does not reset and that later draws / results may depend on.  The
+# library must leave it as it found it after EVERY call -- also when the call ends with an exception raised by a user callback /
+# metric / observable (caught by the caller) or by an invalid argument.  Print options are deliberately not part of the
+# snapshot (they do not reach samples, statistics or parameters).
+_SCALARS = (int, float, str, bool, type(None), bytes, complex)
+
+
+def _flush_denormal_probe():
+    import torch
+    return bool((torch.tensor([2e-308], dtype=torch.float64) * 0.01).item() == 0.0)
+
+
+def _scalar_like(v):
+    import torch
+    if isinstance(v, _SCALARS) or isinstance(v, (torch.dtype, torch.device)):
+        return True
+    return isinstance(v, (tuple, frozenset)) and len(v) <= 16 and all(isinstance(x, _SCALARS) for x in v)
+
+
+def _package_globals(raw=False):
+    """scalar module-level globals and scalar class attributes of every loaded qucumber module (raw: owner, attribute, value)."""
+    out = {}
+    cache = _STATE.get("pkg_modules")
+    if cache is None or cache[0] != len(sys.modules):
+        cache = (len(sys.modules), [(name, mod) for name, mod in list(sys.modules.items())
+                                    if mod is not None and (name == "qucumber" or name.startswith("qucumber."))])
+        _STATE["pkg_modules"] = cache
+    for name, mod in cache[1]:
+        for k, v in list(vars(mod).items()):
+            if k.startswith("__"):
+                continue
+            if _scalar_like(v):
+                out[name + "." + k] = (mod, k, v) if raw else repr(v)
+            elif isinstance(v, type) and getattr(v, "__module__", None) == name:
+                for ck, cv in list(vars(v).items()):
+                    if not ck.startswith("__") and _scalar_like(cv):
+                        out["%s.%s.%s" % (name, k, ck)] = (v, ck, cv) if raw else repr(cv)
+    return out
+
+
+def proc_snapshot():
+    import torch, numpy as np, warnings
+    s = {}
+
+    def put(key, f):
+        try:
+            s[key] = f()
+        except Exception:
+            pass
+    put("torch.default_dtype", lambda: str(torch.get_default_dtype()))
+    put("torch.default_device", lambda: str(torch.get_default_device()))
+    put("torch.num_threads", torch.get_num_threads)
+    put("torch.num_interop_threads", torch.get_num_interop_threads)
+    put("torch.deterministic_algorithms", lambda: [bool(torch.are_deterministic_algorithms_enabled()),
+                                                   bool(torch.is_deterministic_algorithms_warn_only_enabled())])
+    put("torch.float32_matmul_precision", torch.get_float32_matmul_precision)
+    put("torch.grad_enabled", torch.is_grad_enabled)
+    put("torch.inference_mode", torch.is_inference_mode_enabled)
+    put("torch.anomaly_enabled", torch.is_anomaly_enabled)
+    put("torch.flush_denormal", _flush_denormal_probe)
+    put("torch.backends.cudnn", lambda: [bool(torch.backends.cudnn.deterministic), bool(torch.backends.cudnn.benchmark),
+                                         bool(torch.backends.cudnn.enabled), bool(torch.backends.cudnn.allow_tf32)])
+    put("torch.backends.cuda.matmul.allow_tf32", lambda: bool(torch.backends.cuda.matmul.allow_tf32))
+    put("torch.backends.opt_einsum", lambda: [bool(torch.backends.opt_einsum.enabled), str(torch.backends.opt_einsum.strategy)])
+    put("torch.utils.deterministic.fill_uninitialized_memory", lambda: bool(torch.utils.deterministic.fill_uninitialized_memory))
+    put("numpy.geterr", lambda: dict(np.geterr()))
+    put("numpy.geterrcall", lambda: repr(np.geterrcall()))
+    put("warnings.filters", lambda: [len(warnings.filters), hashlib.sha1(repr(
+        [(f[0], getattr(f[1], "pattern", f[1]), getattr(f[2], "__name__", str(f[2])), getattr(f[3], "pattern", f[3]), f[4])
+         for f in warnings.filters]).encode()).hexdigest()[:12]])
+    put("os.environ", lambda: hash(frozenset(os.environ._data.items())))
+    put("os.cwd", os.getcwd)
+    put("sys.recursionlimit", sys.getrecursionlimit)
+    put("sys.stdout", lambda: id(sys.stdout))
+    put("qucumber.globals", _package_globals)
+    return s
+
+
+def proc_diff(before, after):
+    d = {}
+    for k in before:
+        if k not in after or before[k] == after[k]:
+            continue
+        if k == "qucumber.globals":
+            for g in before[k]:
+                if g in after[k] and before[k][g] != after[k][g]:     # modules imported lazily meanwhile are not a change
+                    d["qucumber global " + g] = [before[k][g], after[k][g]]
+        elif k == "os.environ":
+            d[k] = ["<digest %s>" % before[k], "<digest %s>" % after[k]]
+        elif k == "warnings.filters":
+            d[k] = [before[k], after[k]]
+        else:
+            d[k] = [before[k], after[k]]
+    return d
+
+
+def proc_leftover():
+    """settings that differ from the baseline now (warnings filters / environment only if the library was seen writing them)."""
+    d = proc_diff(proc_baseline()["snap"], proc_snapshot())
+    for family in ("warnings.filters", "os.environ"):
+        if family in d and family not in _STATE.get("proc_dirty", ()):
+            del d[family]
+    return d
+
+
+def proc_baseline():
+    """the settings the harness process starts every case from (taken once, before the first case)."""
+    import warnings
+    if _STATE.get("proc_base") is None:
+        import torch, numpy as np
+        _STATE["proc_base"] = {"snap": proc_snapshot(), "filters": list(warnings.filters), "environ": dict(os.environ),
+                               "errcall": np.geterrcall(), "dtype": torch.get_default_dtype(), "stdout": sys.stdout,
+                               "globals_raw": _package_globals(raw=True)}
+    return _STATE["proc_base"]
+
+
+def proc_restore():
+    """put the process-wide settings back to the baseline, so that what one case left behind is not blamed on the next."""
+    import torch, numpy as np, warnings
+    base = proc_baseline()
+    snap = base["snap"]
+    dirty = _STATE.get("proc_dirty", set())
+    if not proc_leftover():
+        return False
+
+    def attempt(f):
+        try:
+            f()
+        except Exception:
+            pass
+    attempt(lambda: torch.set_default_dtype(base["dtype"]))
+    attempt(lambda: torch.set_default_device(None if snap.get("torch.default_device") in (None, "cpu") else snap["torch.default_device"]))
+    attempt(lambda: torch.set_num_threads(snap["torch.num_threads"]))
+    attempt(lambda: torch.use_deterministic_algorithms(snap["torch.deterministic_algorithms"][0],
+                                                       warn_only=snap["torch.deterministic_algorithms"][1]))
+    attempt(lambda: torch.set_float32_matmul_precision(snap["torch.float32_matmul_precision"]))
+    attempt(lambda: torch.set_grad_enabled(snap["torch.grad_enabled"]))
+    attempt(lambda: torch.set_anomaly_enabled(snap["torch.anomaly_enabled"]))
+    attempt(lambda: torch.set_flush_denormal(snap["torch.flush_denormal"]))
+
+    def backends():
+        c = snap["torch.backends.cudnn"]
+        torch.backends.cudnn.deterministic, torch.backends.cudnn.benchmark = c[0], c[1]
+        torch.backends.cudnn.enabled, torch.backends.cudnn.allow_tf32 = c[2], c[3]
+        torch.backends.cuda.matmul.allow_tf32 = snap["torch.backends.cuda.matmul.allow_tf32"]
+        torch.backends.opt_einsum.enabled = snap["torch.backends.opt_einsum"][0]
+        torch.backends.opt_einsum.strategy = snap["torch.backends.opt_einsum"][1]
+        torch.utils.deterministic.fill_uninitialized_memory = snap["torch.utils.deterministic.fill_uninitialized_memory"]
+    attempt(backends)
+    attempt(lambda: np.seterr(**snap["numpy.geterr"]))
+    attempt(lambda: np.seterrcall(base["errcall"]))
+
+    def filters():
+        warnings.filters[:] = base["filters"]
+        getattr(warnings, "_filters_mutated", lambda: None)()
+    if "warnings.filters" in dirty:
+        attempt(filters)
+
+    def environ():
+        for k in list(os.environ):
+            if k not in base["environ"]:
+                del os.environ[k]
+        for k, v in base["environ"].items():
+            if os.environ.get(k) != v:
+                os.environ[k] = v
+    if "os.environ" in dirty:
+        attempt(environ)
+    _STATE["proc_dirty"] = set()
+    attempt(lambda: os.chdir(snap["os.cwd"]))
+    attempt(lambda: sys.setrecursionlimit(snap["sys.recursionlimit"]))
+    attempt(lambda: setattr(sys, "stdout", base["stdout"]))
+
+    def pkg_globals():
+        cur = _package_globals()
+        for g, (owner, attr, val) in base["globals_raw"].items():
+            if g in cur and cur[g] != repr(val):
+                setattr(owner, attr, val)
+    attempt(pkg_globals)
+    return True
+
+
+class ScriptedFault(RuntimeError):
+    """raised by the harness's user-supplied callables (metric / callback / observable / optimizer) at a scripted event"""
+
+
+class ScriptedInterrupt(KeyboardInterrupt):
+    """the same, as a KeyboardInterrupt (Ctrl-C while a slow user metric runs): not an Exception"""
+
+
+FAULT_WHERE = ["metric", "metric_hook", "observable_eval", "lambda:on_train_start", "lambda:on_epoch_start", "lambda:on_batch_start",
+               "lambda:on_batch_end", "lambda:on_epoch_end", "lambda:on_train_end", "callback:on_batch_end", "callback:on_epoch_end",
+               "logger_fn", "logger_msg_gen", "saver_metadata", "optimizer", "scheduler", "obs_statistics", "obs_sample",
+               "obs_composite", "system_statistics", "stats_from_samples", "early_stopping_metric",
+               "bad_input:sample", "bad_input:fit", "bad_input:metric", "bad_input:rotate", "bad_input:statistics"]
+
+
+class Fuse:
+    """raises at its n-th call (once); counts the calls."""
+
+    def __init__(self, at, exc):
+        self.at, self.exc, self.calls, self.fired = at, exc, 0, False
+
+    def __call__(self):
+        self.calls += 1
+        if self.calls == self.at and not self.fired:
+            self.fired = True
+            if self.exc == "interrupt":
+                raise ScriptedInterrupt("scripted Ctrl-C inside a user-supplied callable (call %d)" % self.calls)
+            raise ScriptedFault("scripted failure inside a user-supplied callable (call %d)" % self.calls)
+
+
 # =============================================================================== history generation
 KINDS = ["positive", "complex", "density"]
 OBS = ["SigmaX", "SigmaY", "SigmaZ", "Neighbour", "NeighbourPBC", "SWAP", "Sum", "Prod", "Neg"]
 OP_WEIGHTS = {"reseed": 1.0, "reinit": 0.7, "sample": 3.0, "obs_sample": 1.5, "statistics": 2.0, "system_statistics": 1.0,
               "fit": 2.5, "evaluate": 2.5, "metric": 2.0, "rotate": 1.8, "save": 1.0, "load": 0.7, "autoload": 0.5,
-              "gradient": 2.0, "stats_from_samples": 1.0, "load_data": 0.5, "poke": 0.8, "callback_hook": 1.0}
+              "gradient": 2.0, "stats_from_samples": 1.0, "load_data": 0.5, "poke": 0.8, "callback_hook": 1.0, "fault": 1.8}
 READ_ONLY_OPS = {"sample", "obs_sample", "statistics", "system_statistics", "evaluate", "metric", "rotate", "save", "gradient",
                  "stats_from_samples", "load_data", "callback_hook"}
 POKE_VALUES = ["nan", "inf", "-inf", "75.0", "-60.0", "1e6", "1e-300", "0.0", "1e300", "-1e300", "1e12", "-1e9"]
@@ -332,6 +582,17 @@ FIT_KNOWN = {"self", "data", "epochs", "pos_batch_size", "neg_batch_size", "k", 
              "time", "callbacks", "optimizer", "optimizer_args", "scheduler", "scheduler_args", "kwargs"}
 SEED_FLAGS = [{"cpu": True, "gpu": False}, {"cpu": True, "gpu": True}, {}, {"cpu": True}, {"gpu": True}]
 RNG_OPS = {"sample", "obs_sample", "statistics", "system_statistics", "fit"}
+# scripted faults whose operation is read-only by the property's second sentence (sampling / observables / metrics / rotations)
+FAULT_READ_ONLY = {"metric_hook", "obs_statistics", "obs_sample", "obs_composite", "system_statistics", "stats_from_samples",
+                   "bad_input:sample", "bad_input:metric", "bad_input:rotate", "bad_input:statistics"}
+FAULT_SINGLE_CALL = {"obs_sample", "stats_from_samples", "lambda:on_train_start", "lambda:on_train_end"}
+FAULT_PER_EPOCH = {"metric", "early_stopping_metric", "metric_hook", "lambda:on_epoch_start", "lambda:on_epoch_end",
+                   "callback:on_epoch_end", "logger_fn", "logger_msg_gen", "saver_metadata", "scheduler"}
+
+
+def fault_op(where, exc, at, data, bases, epochs=2, pbs=3, k=1, lr=0.05, n=6, chains=3, burn_in=2, steps=1):
+    return {"op": "fault", "where": where, "exc": exc, "at": at, "data": data, "bases": bases, "epochs": epochs, "pbs": pbs, "k": k,
+            "lr": lr, "n": n, "chains": chains, "burn_in": burn_in, "steps": steps}
 
 
 def _bits(rng, n, nv):
@@ -441,6 +702,12 @@ def gen_op(rng, kind, nv, name, thorough):
         op["which"] = str(rng.choice(HOOK_KINDS))
         op["epoch"] = int(rng.integers(1, 4))
         op["samples"] = _bits(rng, int(rng.integers(4, 9)), nv)
+    elif name == "fault":
+        n = int(rng.integers(6, 14))
+        op = fault_op(str(rng.choice(FAULT_WHERE)), str(rng.choice(["error", "interrupt"])), int(rng.integers(1, 4)),
+                      _bits(rng, n, nv), _bases(rng, n, nv), epochs=int(rng.integers(2, 4)), pbs=int(rng.integers(2, n + 1)),
+                      k=int(rng.integers(1, 3)), lr=float(rng.choice([1e-2, 0.1])), n=int(rng.integers(4, 20)),
+                      chains=int(rng.choice([0, 2, 3])), burn_in=int(rng.integers(1, 4)), steps=int(rng.integers(1, 3)))
     return op
 
 
@@ -529,6 +796,8 @@ class Runner:
         self.rng_states = []        # per op: digest of torch's CPU generator state after the op
         self.raised = []            # (index, op, exception type) of operations that raised
         self.cb_changes = []        # (index, hook) callbacks' hooks during fit between which the parameter bytes changed
+        self.proc_changes = []      # (label, {setting: [before, after]}) library calls that changed a process-wide setting
+        self.cur_label = "seed"
 
     def perturb_foreign(self, i):
         """put numpy's and Python's global generators into a run-specific state and consume a run-specific amount."""
@@ -562,6 +831,8 @@ class Runner:
 
     def timed(self, entries, fn):
         _STATE["hits"] = set() if self.record_hits else None
+        _STATE["proc_writes"] = set()
+        settings = proc_snapshot()
         try:
             try:
                 out = fn()
@@ -572,6 +843,14 @@ class Runner:
             hits = _STATE["hits"]
             _STATE["hits"] = None
         self.hits.append(([qualname(e) for e in entries], hits or set()))
+        changed = proc_diff(settings, proc_snapshot())
+        for family in ("warnings.filters", "os.environ"):
+            if family in changed and family not in _STATE.get("proc_writes", ()):
+                del changed[family]          # written by torch / the interpreter (lazy imports), not by the library
+            elif family in changed:
+                _STATE.setdefault("proc_dirty", set()).add(family)
+        if changed:
+            self.proc_changes.append((self.cur_label, changed))
         return out
 
     def run(self):
@@ -610,6 +889,7 @@ class Runner:
         def construct():
             holder["s"] = mk()
             return None
+        self.cur_label = "construct"
         self.timed([cls.__init__], construct)
         st = holder.get("s")
         self.st = st
@@ -619,6 +899,7 @@ class Runner:
         for i, op in enumerate(h["ops"]):
             self.perturb_foreign(i + 1)
             before = param_bytes(st)
+            self.cur_label = op_label(h, i + 1)
             entries, thunk = self.dispatch(op, i)
             out = self.timed(entries, thunk)
             st = self.st
@@ -626,8 +907,8 @@ class Runner:
             after = param_bytes(st)
             self.params.append(after)
             self.rng_states.append(rng_digest())
-            if op["op"] in READ_ONLY_OPS and after != before:
-                self.ro_changes.append((i, op["op"], op.get("what")))
+            if (op["op"] in READ_ONLY_OPS or (op["op"] == "fault" and op["where"] in FAULT_READ_ONLY)) and after != before:
+                self.ro_changes.append((i, op["op"], op.get("what", op.get("where"))))
         for key in _STATE.get("env_keys", ()):
             os.environ.pop(key, None)
         return self
@@ -758,6 +1039,8 @@ class Runner:
             return self.load_data(op, i)
         if name == "callback_hook":
             return self.callback_hook(op, i)
+        if name == "fault":
+            return self.fault(op, i)
         if name == "save":
             path = os.path.join(self.workdir, "state_%d.pt" % i)
 
@@ -777,6 +1060,147 @@ class Runner:
                 return None
             return [T.autoload], do_autoload
         raise ValueError("unknown op " + name)
+
+    def fault(self, op, i):
+        """a FAULT at a scripted event: a user-supplied callable (metric, callback hook, observable, logger function, metadata
+        function, optimizer / scheduler class) raises at its n-th call -- an ordinary exception or a KeyboardInterrupt -- or a public
+        operation is given an invalid argument; the harness (the caller) catches it and the history carries on."""
+        import io, contextlib, torch, numpy as np
+        from qucumber import callbacks as C
+        from qucumber.observables import ObservableBase, SigmaZ, System
+        import qucumber.utils.training_statistics as ts
+        from qucumber.utils import unitaries
+        st, h = self.st, self.h
+        T = type(st)
+        where = op["where"]
+        nv = h["nv"]
+        at = op["at"]
+        if where in FAULT_SINGLE_CALL:
+            at = 1
+        elif where in FAULT_PER_EPOCH:
+            at = 1 + (at - 1) % op["epochs"]
+        fuse = Fuse(at, op["exc"])
+        data = torch.tensor(op["data"], dtype=torch.double)
+        wide = torch.cat([data, data[:, :1]], dim=1)             # one column too many: an invalid argument
+
+        class FlakyObs(ObservableBase):
+            def __init__(self):
+                self.name, self.symbol = "Flaky", "F"
+
+            def apply(self, nn_state, samples):
+                fuse()
+                return samples.to(dtype=torch.double).sum(1) - 0.5 * samples.shape[-1]
+
+        def flaky_metric(nn_state, **kw):
+            fuse()
+            return 0.25
+
+        def fit_with(cbs, **extra):
+            kw = dict(epochs=op["epochs"], pos_batch_size=op["pbs"], k=op["k"], lr=op["lr"], progbar=False, time=False, callbacks=cbs)
+            if h["kind"] != "positive":
+                kw["input_bases"] = np.array(op["bases"])
+            kw.update(extra)
+            return lambda: st.fit(data, **kw)
+
+        def hook_fn(hook):
+            if hook in ("on_train_start", "on_train_end"):
+                return lambda s_: fuse()
+            if hook in ("on_epoch_start", "on_epoch_end"):
+                return lambda s_, ep: fuse()
+            return lambda s_, ep, b: fuse()
+        stat_kw = dict(num_samples=op["n"], num_chains=op["chains"], burn_in=op["burn_in"], steps=op["steps"])
+        entries, fn = [T.fit], None
+        if where == "metric":
+            fn = fit_with([C.MetricEvaluator(1, {"steady": lambda s_, **kw: 1.0, "flaky": flaky_metric}, verbose=False)])
+        elif where == "early_stopping_metric":
+            me = C.MetricEvaluator(1, {"flaky": flaky_metric}, verbose=False)
+            fn = fit_with([me, C.EarlyStopping(1, 1e-12, 1, me, "flaky", criterion="absolute")])
+        elif where == "metric_hook":
+            me = C.MetricEvaluator(1, {"flaky": flaky_metric}, verbose=False)
+            entries = [C.MetricEvaluator.on_epoch_end]
+            fn = lambda: [me.on_epoch_end(st, e) for e in range(1, op["epochs"] + 1)]
+        elif where == "observable_eval":
+            fn = fit_with([C.ObservableEvaluator(1, [SigmaZ(), FlakyObs()], verbose=False, num_samples=6, burn_in=2, steps=1)])
+        elif where.startswith("lambda:"):
+            hook = where.split(":")[1]
+            fn = fit_with([C.LambdaCallback(**{hook: hook_fn(hook)})])
+        elif where.startswith("callback:"):
+            hook = where.split(":")[1]
+            FlakyCallback = type("FlakyCallback", (C.CallbackBase,), {hook: (lambda f: lambda self_, *a: f(*a))(hook_fn(hook))})
+            fn = fit_with([FlakyCallback()])
+        elif where == "logger_fn":
+            fn = fit_with([C.Logger(1, logger_fn=lambda msg: fuse(), note="c14")])
+        elif where == "logger_msg_gen":
+            lines = []
+
+            def msg_gen(s_, ep, **kw):
+                fuse()
+                return "epoch %d" % ep
+            fn = fit_with([C.Logger(1, logger_fn=lines.append, msg_gen=msg_gen)])
+        elif where == "saver_metadata":
+            def metadata(s_, ep):
+                fuse()
+                return {"epoch": ep}
+            fn = fit_with([C.ModelSaver(1, os.path.join(self.workdir, "fault_%d" % i), "m{}.pt", save_initial=False, metadata=metadata)])
+        elif where == "optimizer":
+            class FlakySGD(torch.optim.SGD):
+                def step(self_, *a, **k):
+                    fuse()
+                    return super().step(*a, **k)
+            fn = fit_with([], optimizer=FlakySGD)
+        elif where == "scheduler":
+            class FlakyStepLR(torch.optim.lr_scheduler.StepLR):
+                def step(self_, *a, **k):
+                    fuse()
+                    return super().step(*a, **k)
+            fn = fit_with([], scheduler=FlakyStepLR, scheduler_args={"step_size": 1, "gamma": 0.5})
+        elif where == "obs_statistics":
+            ob = FlakyObs()
+            entries, fn = [ObservableBase.statistics], lambda: ob.statistics(st, **stat_kw)
+        elif where == "obs_composite":
+            ob = 2.0 * FlakyObs() + SigmaZ()
+            entries, fn = [type(ob).statistics, type(ob).apply], lambda: ob.statistics(st, **stat_kw)
+        elif where == "obs_sample":
+            ob = FlakyObs()
+            entries, fn = [ObservableBase.sample], lambda: ob.sample(st, k=op["k"], num_samples=op["n"])
+        elif where == "system_statistics":
+            sysm = System(SigmaZ(), FlakyObs())
+            entries, fn = [System.statistics], lambda: sysm.statistics(st, **stat_kw)
+        elif where == "stats_from_samples":
+            ob = FlakyObs()
+            entries, fn = [ObservableBase.statistics_from_samples], lambda: ob.statistics_from_samples(st, data)
+        elif where == "bad_input:sample":
+            entries, fn = [T.sample], lambda: st.sample(k=op["k"], num_samples=op["n"], initial_state=wide[:3].clone())
+        elif where == "bad_input:fit":
+            kw = dict(epochs=op["epochs"], pos_batch_size=op["pbs"], k=op["k"], lr=op["lr"], progbar=False,
+                      callbacks=[C.MetricEvaluator(1, {"steady": lambda s_, **kw_: 1.0}, verbose=False)])
+            if h["kind"] != "positive":
+                kw["input_bases"] = np.array(op["bases"])
+            fn = lambda: st.fit(wide, **kw)
+        elif where == "bad_input:metric":
+            entries, fn = [ts.NLL, ts.KL], lambda: [ts.NLL(st, wide, space=st.generate_hilbert_space()),
+                                                    ts.KL(st, torch.ones(2, 3, dtype=torch.double), space=st.generate_hilbert_space())]
+        elif where == "bad_input:rotate":
+            space = st.generate_hilbert_space()
+            if h["kind"] == "density":
+                entries, fn = [unitaries.rotate_rho], lambda: unitaries.rotate_rho(st, ["Q"] * nv, space)
+            else:
+                entries, fn = [unitaries.rotate_psi], lambda: unitaries.rotate_psi(st, ["Q"] * nv, space, unitaries=unitaries.create_dict())
+        elif where == "bad_input:statistics":
+            entries, fn = [SigmaZ.statistics], lambda: SigmaZ().statistics(st, initial_state=wide[:2].clone(), **stat_kw)
+        else:
+            raise ValueError("unknown fault " + where)
+
+        def thunk():
+            try:
+                with contextlib.redirect_stdout(io.StringIO()):
+                    r = fn()
+                return ["FAULT", where, "returned", fuse.calls, canon(r)]
+            except (ScriptedFault, ScriptedInterrupt) as e:
+                return ["FAULT", where, type(e).__name__, fuse.calls]
+            finally:
+                st.stop_training = False      # the next fit of the history starts afresh
+        return entries, thunk
 
     def callback_hook(self, op, i):
         """the hooks of the library's evaluation / logging / saving callbacks called as what they are: read-only operations
@@ -1038,8 +1462,15 @@ def check_history(ctx, h, subprocess_too=False, count=True, other_seed=True):
         for n in names:
             ctx.count("op:" + n)
     wd = os.path.join(ctx.scratch, "h%d" % ctx.evaluations)
+    # every case starts from the baseline settings of the process; WITHIN the case nothing is reset: the second run (and the
+    # probe run) inherit whatever the first run left behind in the process -- which, by the property, must not matter
+    if proc_restore():
+        ctx.count("process_settings_reset_before_case")
+    probe = probe_history(h)
+    p0 = Runner(probe, os.path.join(wd, "p0"), perturb=0, record_hits=False).run()
     a = Runner(h, os.path.join(wd, "a"), perturb=0).run()
     b = Runner(h, os.path.join(wd, "b"), perturb=1 + ctx.evaluations % 97).run()
+    p1 = Runner(probe, os.path.join(wd, "p1"), perturb=2 + ctx.evaluations % 89, record_hits=False).run()
     # ---- reproducibility: outputs and parameters bit-identical
     d = first_diff(a.outputs, b.outputs)
     ctx.require("identically seeded runs give bit-identical outputs (numpy / random perturbed between the runs)", d is None,
@@ -1051,6 +1482,22 @@ def check_history(ctx, h, subprocess_too=False, count=True, other_seed=True):
     d = first_diff(a.rng_states, b.rng_states)
     ctx.require("identically seeded runs leave torch's generator in the same state (every continuation is reproducible)", d is None,
                 dict(case, first_differing_operation=op_label(h, d)), "generator state digests differ")
+    # ---- what the history left behind in the process must not reach a later seeded run
+    d = first_diff(p0.outputs + p0.params, p1.outputs + p1.params)
+    ctx.require(W_PROBE, d is None, dict(case, probe=probe["ops"], first_differing_probe_operation=d,
+                                         settings_now_differing_from_baseline=proc_leftover()),
+                {"before_the_history": (p0.outputs + p0.params)[d] if d is not None else None,
+                 "after_the_history": (p1.outputs + p1.params)[d] if d is not None else None})
+    for r in (a, b, p0, p1):
+        for (lab, changed) in r.proc_changes[:1]:
+            ctx.require(W_PROC, False, dict(case, operation=lab), {"changed": changed})
+        if r.proc_changes:
+            break
+    for o_ in h["ops"]:
+        if o_["op"] == "fault":
+            ctx.count("fault:" + o_["where"].split(":")[0] + ":" + o_["exc"])
+    for (lab_out) in [x for x in a.outputs if isinstance(x, list) and len(x) > 3 and x[1] == "FAULT"]:
+        ctx.count("fault_outcome:" + str(lab_out[3]))
     for (idx, exc, msg) in a.raised[:3]:
         poked = any(o["op"] == "poke" for o in h["ops"][:max(idx - 2, 0)])
         # without a poke (degenerate parameter written by the harness) this never happens on the unchanged tree
@@ -1122,6 +1569,30 @@ def check_history(ctx, h, subprocess_too=False, count=True, other_seed=True):
             ctx.traces += 1
             ctx.count("subprocess_runs")
     return len(ctx.failures) + len(ctx.disagreements) - n0
+
+
+W_PROBE = ("a seeded run gives bit-identical outputs before and after the history ran in the same process (nothing a history leaves "
+           "behind -- e.g. after an exception inside a user callback / metric / observable -- may reach later seeded runs)")
+W_PROC = ("every library call leaves the process-wide settings as it found them (torch default dtype / device / threads / deterministic "
+          "switches, numpy error state, warnings filters, environment, module-level globals of the package), also when it ends with "
+          "an exception")
+
+
+def probe_history(h):
+    """a short seeded run (draws with the default initial state, statistics, training) executed before and after the history"""
+    data = _STATE.setdefault("probe_data", {})
+    nv = h["nv"]
+    if nv not in data:
+        import numpy as np
+        g = np.random.Generator(np.random.PCG64(nv))
+        data[nv] = (g.integers(0, 2, size=(6, nv)).astype(float).tolist(),
+                    [["Z"] * nv] * 3 + [[str(c) for c in g.choice(["X", "Y", "Z"], size=nv)] for _ in range(3)])
+    fit = {"op": "fit", "data": data[nv][0], "bases": data[nv][1], "epochs": 1, "pbs": 3, "nbs": 0, "k": 1, "lr": 0.1, "optimizer": "SGD",
+           "time": False, "callbacks": ["none"], "extra_callbacks": [], "scheduler": False}
+    return {"kind": h["kind"], "nv": nv, "nh": h["nh"], "na": h.get("na", 1), "seed": h["seed"], "seed_flags": {"cpu": True, "gpu": False},
+            "ops": [{"op": "sample", "k": 2, "n": 20},
+                    {"op": "statistics", "obs": ["SigmaZ"], "A": [0], "k": 1, "n": 6, "chains": 3, "burn_in": 2, "steps": 1}, fit,
+                    {"op": "sample", "k": 1, "n": 8}]}
 
 
 def run_in_subprocess(ctx, h, wd):
@@ -1217,6 +1688,27 @@ def fixed_histories():
     return out
 
 
+def fault_histories():
+    """FAULT followed by ordinary operations, per state kind: every kind of user-supplied callable (and every kind of invalid
+    argument) fails once, as an ordinary exception and as a KeyboardInterrupt (alternating with the state kind); before and after
+    every fault the history draws with the default initial state / evaluates statistics, so that whatever the aborted call left
+    behind shows up in the comparison of the two identically seeded runs (the second run and the probe inherit it)."""
+    data = [[0.0, 1.0, 1.0], [1.0, 0.0, 1.0], [1.0, 1.0, 0.0], [0.0, 0.0, 1.0], [1.0, 1.0, 1.0], [0.0, 1.0, 0.0], [1.0, 0.0, 0.0], [0.0, 0.0, 0.0]]
+    bases = [["Z", "Z", "Z"], ["Z", "Z", "Z"], ["X", "Z", "Y"], ["Z", "X", "Z"], ["Y", "Y", "Z"], ["Z", "Z", "X"], ["X", "X", "X"], ["Z", "Y", "Z"]]
+    smp = {"op": "sample", "k": 2, "n": 24}
+    stat = {"op": "statistics", "obs": ["SigmaX"], "A": [0], "k": 1, "n": 6, "chains": 0, "burn_in": 2, "steps": 1}
+    sysst = {"op": "system_statistics", "obs": ["SigmaZ", "SWAP"], "A": [0], "k": 1, "n": 6, "chains": 3, "burn_in": 2, "steps": 1}
+    out = []
+    for j, kind in enumerate(KINDS):
+        ops = [smp, stat]
+        for q, where in enumerate(FAULT_WHERE):
+            exc = ("error", "interrupt")[(q + j) % 2]
+            ops.append(fault_op(where, exc, 1 + (q + j) % 3, data, bases, epochs=2 + (q + j) % 2, pbs=3 + q % 3))
+            ops.append((smp, stat, sysst)[q % 3])
+        out.append({"kind": kind, "nv": 3, "nh": 2, "na": 2, "seed": 4242 + 17 * j, "seed_flags": {"cpu": True, "gpu": False}, "ops": ops})
+    return out
+
+
 # =============================================================================== entry points
 def static_report(ctx):
     st = _STATE["static"] or {}
@@ -1274,6 +1766,11 @@ def run(ctx):
     # numeric fit(time=...), explicit Timer, degenerate parameter values followed by every class of read-only operation and by
     # the callbacks' hooks; then seed pairs from every regime and re-seeding
     pairs = seed_pairs(rng)
+    proc_baseline()
+    for h in fault_histories():
+        check_history(ctx, h)
+        ctx.count("fixed_fault_history")
+    ctx.extra["fault_histories_s"] = round(time.time() - t0, 1)
     fixed = fixed_histories()
     for h in fixed:
         check_history(ctx, h)
@@ -1297,6 +1794,7 @@ def run(ctx):
             break
     ctx.extra["histories"] = i
     ctx.extra["dynamic_s"] = round(time.time() - t0, 1)
+    proc_restore()
     # ---- informational: which public read-only roots of the table were entered directly by the grammar
     model = _STATE["model"]
     if model is not None:
